@@ -114,8 +114,9 @@ def rand_flat_schema(rng, nmsg):
         name = "M%d" % mi
         structs.append({"name": name, "fields": fields})
         impls.append({"name": name, "protocol": "can", "type": name,
-                      "fields": [{"name": "id", "value": {"i": rng.choice([0, 1, 2047, rng.randint(0, 2047)])}},
-                                 {"name": "device", "value": {"s": rng.choice(devs)}}], "signals": []})
+                      "fields": [{"name": "id", "value": {"i": rng.choice([0, 1, 2047, rng.randint(0, 2047)])}}] +
+                                # a binding without a device belongs to the device "global"
+                                ([{"name": "device", "value": {"s": rng.choice(devs)}}] if rng.random() < 0.85 else []), "signals": []})
         if rng.random() < 0.25:
             # the same struct bound a second time under another name and id
             impls.append({"name": name + "b", "protocol": "can", "type": name,
